@@ -27,7 +27,7 @@ LEVEL = META['level']
 RULE = ('a case = one (operation list, setting) execution compared with the reference execution and the model, or one operation string parsed; distinct by (list, setting) / string; '
         'non-trivial = the list has >= 2 operations and the setting pipelines or bundles')
 ASSUMPTIONS = ['tag state is reset in-process between settings (the simulator runs in a thread of the checking process)']
-REQUIRED = ['lists', 'settings', 'setting:synchronous', 'setting:pipelined', 'setting:bundled', 'setting:fragment', 'ops:read', 'ops:write', 'ops:failing', 'ops:attribute', 'ops:attribute-refused-bare-status',
+REQUIRED = ['lists', 'settings', 'setting:synchronous', 'setting:pipelined', 'setting:bundled', 'setting:fragment', 'ops:read', 'ops:write', 'ops:failing', 'ops:attribute', 'ops:attribute-refused-bare-status', 'ops:no-route-path-next-to-default',
             'bundles:seen', 'bundles:multi-member', 'monitor:paths-in-bundle', 'ops:differing-route-paths', 'strings:parsed', 'strings:write-cast', 'strings:range', 'strings:offset',
             'strings:numeric-path', 'strings:text-values', 'paths:format-parse', 'monitor:model-compare', 'proxy:lists']
 TIMEOUT = {'quick': 300, 'thorough': 2400}
@@ -242,7 +242,7 @@ def run_list(ctx, sim, rng, nops, settings):
     from cpppo.server.enip import client
     from vlib import arraymodel, gen, refcodec as rc
     specs, ops = [], []
-    routes = [None, [{'port': 1, 'link': 0}], [{'port': 1, 'link': 1}]]
+    routes = [None, [{'port': 1, 'link': 0}], [{'port': 1, 'link': 1}], False, []]      # None = the default route 1/0; False / [] = no route path at all
     differing = rng.random() < 0.4
     for _ in range(nops):
         r = rng.random()
@@ -274,7 +274,10 @@ def run_list(ctx, sim, rng, nops, settings):
             rp = rng.choice(routes)
             if rp is not None:
                 kw['route_path'] = rp
-                kw['send_path'] = '@6/1'
+                if rp:
+                    kw['send_path'] = '@6/1'
+                else:
+                    ctx.count('ops:no-route-path-next-to-default')
         parsed, = list(client.parse_operations([op if op is not None else specs[-1][1]], **kw))
         ops.append(parsed)
     for kind, _ in specs:
